@@ -32,6 +32,9 @@ pub enum Step {
     /// the application stops reading its event stream while 70 further sessions are reported (two
     /// events each; the stream holds 30 or 100 events), then catches up
     EventBacklog,
+    /// the application sets the record's UDP socket itself (Discv5::update_local_enr_socket) to a
+    /// candidate address - a change that does not come from PONGs; the votes stay as they are
+    ManualUpdate { cand: u8 },
 }
 
 #[derive(Clone, Debug, PartialEq, Eq, Hash, Serialize, Deserialize)]
@@ -201,8 +204,12 @@ async fn run(case: &Case, rep: &mut CaseReport) -> Option<(String, String)> {
     let mut naps = 0;
     let mut backlogs = 0;
     let mut updates_after_idle = 0u64;
+    let mut manual_updates = 0u64;
+    // per family: the socket the application set last, while no vote-driven update has replaced it
+    let mut set_by_app: HashMap<bool, SocketAddr> = HashMap::new();
     for step in &case.steps {
         let mut input_is_pong = false;
+        let mut manual = false;
         let t_before = std::time::Instant::now();
         match step {
             Step::Pong { voter, cand } => {
@@ -227,6 +234,19 @@ async fn run(case: &Case, rep: &mut CaseReport) -> Option<(String, String)> {
                 ))
                 .await;
                 named_at.insert((v, a), std::time::Instant::now());
+            }
+            Step::ManualUpdate { cand } => {
+                if case.expiry || case.tight_record {
+                    continue;
+                }
+                let a = cand_addr(*cand % nc, case.dual);
+                manual = true;
+                if s.d.update_local_enr_socket(a, false) {
+                    manual_updates += 1;
+                    set_by_app.insert(a.is_ipv6(), a);
+                    rep.class("record-socket-set-by-the-application-in-between");
+                }
+                s.settle().await;
             }
             Step::EventBacklog => {
                 if backlogs >= 1 {
@@ -298,9 +318,13 @@ async fn run(case: &Case, rep: &mut CaseReport) -> Option<(String, String)> {
             (now.udp4_socket().map(SocketAddr::V4), prev.udp4_socket().map(SocketAddr::V4), "v4"),
             (now.udp6_socket().map(SocketAddr::V6), prev.udp6_socket().map(SocketAddr::V6), "v6"),
         ] {
-            if new_sock == old_sock {
+            if new_sock == old_sock || manual {
                 continue;
             }
+            if manual_updates > 0 {
+                rep.class("address-updated-by-votes-after-the-application-had-set-it");
+            }
+            set_by_app.remove(&(fam == "v6"));
             let Some(x) = new_sock else {
                 return Some(("address/removed-by-pong-path".into(), format!("the {fam} socket disappeared from the local record after {step:?}")));
             };
@@ -356,6 +380,9 @@ async fn run(case: &Case, rep: &mut CaseReport) -> Option<(String, String)> {
     for (a, who) in &ever_named {
         if who.len() < m {
             let cur = s.d.local_enr();
+            if set_by_app.get(&a.is_ipv6()) == Some(a) {
+                continue;
+            }
             if cur.udp4_socket().map(SocketAddr::V4) == Some(*a) || cur.udp6_socket().map(SocketAddr::V6) == Some(*a) {
                 return Some(("address/moved-by-fewer-than-minimum".into(), format!("{a} was only ever named by {} peers, minimum {m}", who.len())));
             }
@@ -409,6 +436,7 @@ impl Property for C17 {
             2 => Just(Step::NextRound),
             1 => (0u8..24).prop_map(|voter| Step::Fail { voter }),
             1 => Just(Step::EventBacklog),
+            1 => (0u8..4).prop_map(|cand| Step::ManualUpdate { cand }),
         ];
         let free = (any::<bool>(), 2u8..=7, prop_oneof![2 => 3u8..=14, 1 => 12u8..=24], prop_oneof![3 => Just(99u8), 1 => 0u8..14], 2u8..=4, proptest::collection::vec(step, 1..70), prop_oneof![12 => Just(false), 1 => Just(true)])
             .prop_map(|(dual, min, n_voters, first_incoming, n_cands, steps, tight_record)| Case { dual, min, n_voters, first_incoming, n_cands, steps, expiry: false, tight_record, table: None });
@@ -472,7 +500,7 @@ impl Property for C17 {
         rep
     }
     fn rule() -> String {
-        "a real service with a scripted handler (IPv4 or dual stack, enr_peer_update_min 2..6, vote duration 10 min, ping interval 10 s virtual, connectivity timer off); 3..24 voters become table members through Established (outgoing; in a quarter of the cases some are incoming); the service's own PINGs are answered per script with PONGs naming one of 2..4 candidate addresses (IPv6 candidates in dual stack), voters change their vote in later ping rounds, some PINGs fail or stay unanswered. Ledger: latest vote per voter. Whenever the UDP socket of local_enr() changes between two steps: the step's input was a PONG; the new address has >= minimum current votes from distinct voters; (all voters eligible) it is the unique maximum and every rival has fewer than 70% of its votes; seq increased, the signature verifies, and Event::SocketUpdated(address) was emitted in that step; an address named by fewer than the minimum number of peers is never taken. Expiry regime (one case in 41): vote duration 80 ms of real time, some voters name an address, a measured real idle period of more than 1.3 x the vote duration follows, then further voters name it; an update then needs at least the minimum number of peers whose naming is not certainly expired. One case in 15 is a companion on the vote table alone (hook VIpVote around service::ip_vote::IpVote, vote duration 1 h): up to 8 blocks of 1..700 voters (voter ids 0..1400, fresh voters and voters changing their vote) name one of 6 addresses of both families, minimum 2..12; after every block the majority of each family is read and, if there is one, must have >= minimum current votes, be the unique maximum and lead every rival by the exact 70% rule - with hundreds of voters, which no routing table holds. Non-trivial = two candidates with >= 2 votes each, a voter changing its vote, or an update; companion: a majority was named among >= 30 voters.".into()
+        "a real service with a scripted handler (IPv4 or dual stack, enr_peer_update_min 2..6, vote duration 10 min, ping interval 10 s virtual, connectivity timer off); 3..24 voters become table members through Established (outgoing; in a quarter of the cases some are incoming); the service's own PINGs are answered per script with PONGs naming one of 2..4 candidate addresses (IPv6 candidates in dual stack), voters change their vote in later ping rounds, some PINGs fail or stay unanswered; now and then the application sets the record's socket itself (update_local_enr_socket) to one of the candidates, after which the votes may move it back. Ledger: latest vote per voter. Whenever the UDP socket of local_enr() changes between two steps: the step's input was a PONG; the new address has >= minimum current votes from distinct voters; (all voters eligible) it is the unique maximum and every rival has fewer than 70% of its votes; seq increased, the signature verifies, and Event::SocketUpdated(address) was emitted in that step; an address named by fewer than the minimum number of peers is never taken. Expiry regime (one case in 41): vote duration 80 ms of real time, some voters name an address, a measured real idle period of more than 1.3 x the vote duration follows, then further voters name it; an update then needs at least the minimum number of peers whose naming is not certainly expired. One case in 15 is a companion on the vote table alone (hook VIpVote around service::ip_vote::IpVote, vote duration 1 h): up to 8 blocks of 1..700 voters (voter ids 0..1400, fresh voters and voters changing their vote) name one of 6 addresses of both families, minimum 2..12; after every block the majority of each family is read and, if there is one, must have >= minimum current votes, be the unique maximum and lead every rival by the exact 70% rule - with hundreds of voters, which no routing table holds. Non-trivial = two candidates with >= 2 votes each, a voter changing its vote, or an update; companion: a majority was named among >= 30 voters.".into()
     }
     fn assumptions() -> Vec<String> {
         vec![
